@@ -152,7 +152,9 @@ def make_requests(rng, ds, prof):
 def ask(srv, stub, req):
     """-> "<HTTP status> <canonical text>" """
     stub.set_tables([tuple(r) for r in req["acc"]], [tuple(r) for r in req["egr"]])
+    stub.set_faults(req.get("faults") or [])     # a request of a history may be one whose router exchange FAILS
     st, hd, body = srv.get(req["path"])
+    stub.set_faults([])
     if st is None:
         return "noreply" + ("" if srv.alive() else " (server exited with status %s: %s)" % (srv.exit_status(), srv.crash_report()))
     if req["kind"] == "access":
